@@ -131,11 +131,25 @@ def gen_faults(rng, tier):
     min_load, max_load = rng.choice(bands)
     slow = rng.random() < 0.1
     initial = sorted(rng.sample(range(universe), n_eps))
-    ops = [['open'], ['loaded']]
-    if slow:
-        ops += [['opened', -1, True] for _ in range(min_size)]
+    ops = [['open']]
     n_get = 0
     open_gets = []
+    if rng.random() < 0.3:
+        # requests that arrive while the balancer is still opening, some with a deadline that passes before it is
+        # open (they have completed with a timeout by then: dispatching them afterwards would book load nobody returns)
+        nd = 0
+        for _ in range(rng.choice([1, 2, 4])):
+            if rng.random() < 0.7:
+                ops.append(['getd']); nd += 1
+            else:
+                ops.append(['get'])
+            open_gets.append(n_get); n_get += 1
+        for k in range(nd):
+            if rng.random() < 0.7:
+                ops.append(['expire', k])
+    ops.append(['loaded'])
+    if slow:
+        ops += [['opened', -1, True] for _ in range(min_size)]
 
     def get(n):
         nonlocal n_get
@@ -182,6 +196,41 @@ def gen_faults(rng, tier):
             'auto_open': rng.random() < 0.9, 'seed': rng.randrange(1 << 30)}
 
 
+def gen_phases(rng):
+    """aperture dynamics in phases: (a jitter round,) traffic climbing to a level with time passing, draining, then a
+    trickle of single requests while the smoothed load decays below the band — the growth and the shrinking the
+    property promises, also after jitter rounds"""
+    n_eps = rng.choice([3, 4, 6, 8])
+    min_size = rng.choice([1, 1, 2])
+    max_size = rng.choice([3, 4, 6, 1 << 31])
+    min_load, max_load = rng.choice([([1, 2], [2, 1]), ([1, 2], [2, 1]), ([1, 4], [1, 1]), ([1, 1], [3, 1])])
+    ops = [['open'], ['loaded']]
+    n_get, open_gets = 0, []
+    for _ in range(rng.choice([1, 2, 3])):
+        if rng.random() < 0.6:
+            ops.append(['jitter'])
+        level = rng.choice([4, 8, 12, 20])
+        for _ in range(level):
+            ops.append(['get']); open_gets.append(n_get); n_get += 1
+            if rng.random() < 0.5:
+                ops.append(['tick', rng.choice([10, 100, 500, 1000])])
+        if rng.random() < 0.3:
+            ops.append(['jitter'])
+        while open_gets:
+            ops.append(['put', open_gets.pop(rng.randrange(len(open_gets)))])
+            if rng.random() < 0.5:
+                ops.append(['tick', rng.choice([100, 1000, 3000])])
+        for _ in range(rng.choice([6, 12, 20])):
+            ops += [['get'], ['tick', rng.choice([100, 1000, 3000, 10000])], ['put', n_get],
+                    ['tick', rng.choice([1000, 3000, 10000])]]
+            n_get += 1
+    script = {'kind': 'aperture', 'min_size': min_size, 'max_size': max_size, 'min_load': min_load,
+              'max_load': max_load, 'slow_open': False, 'initial': list(range(n_eps)), 'ops': ops,
+              'auto_open': True, 'seed': rng.randrange(1 << 30)}
+    add_clock_steps(script)
+    return script
+
+
 def gen_script(rng, tier, focus):
     """focus 5: membership histories on both balancers; focus 6: aperture dynamics; focus 12: the open gate;
     focus 3: member faults under load (C03/C04 on the aperture balancer)"""
@@ -189,6 +238,8 @@ def gen_script(rng, tier, focus):
         return gen_gate(rng, tier)
     if focus == 3:
         return gen_faults(rng, tier)
+    if focus == 6 and rng.random() < 0.2:
+        return gen_phases(rng)
     if focus == 5:
         kind = rng.choice(['heap', 'aperture'])
     else:
@@ -556,7 +607,11 @@ def _run_script(script, comp, wall, vmath):
             return len([c for c in sink._heap[1:] if c.channel.is_open])
 
         def adjust(amount):
-            before = (sink._size, len(sink._idle_endpoints), len(sink._pending_endpoints), healthy())
+            # "pending": members whose expansion is still bringing up its connection.  A marker left on a member whose
+            # open had already ended when the current operation began is not one (the implementation defers
+            # contraction on its own bookkeeping; the property knows no such deferral)
+            pend = len([e for e in sink._pending_endpoints if e not in settled_at_op_start[0]])
+            before = (sink._size, len(sink._idle_endpoints), pend, healthy())
             held = sink._time._last
             del wall.reads[:]
             orig_adjust(amount)
@@ -594,6 +649,7 @@ def _run_script(script, comp, wall, vmath):
     def view(n):
         return [n.nid, ep_id(n.endpoint), n.load, n.index, n.channel.closes, ost(n)]
 
+    settled_at_op_start = [set()]
     blocked = []        # notification greenlets still inside the callback
     queued = []         # dispatches waiting for the open result
     stacks = []         # per dispatch id: (stack, wrapper, done)
@@ -692,6 +748,11 @@ def _run_script(script, comp, wall, vmath):
         return res + extra
 
     for op in script['ops']:
+        if aperture:
+            in_flight = set(c.endpoint for c in prov.chans if c.opens > 0 and c.open_out is None)
+            # (a marker may outlive its own open while the expansion that replaces a failed one is still opening:
+            # markers count as long as any connection is being brought up)
+            settled_at_op_start[0] = set() if in_flight else set(getattr(sink, '_pending_endpoints', ()))
         kind = op[0]
         del draws[:], choices[:], adj_in[:], adj_rec[:], shuffles[:]
         pre_queued = [q for q in queued if not q['served']]
